@@ -12,11 +12,7 @@ impl RelativeJump {
         } else {
             (dest - origin) as isize
         };
-        if i == 0 {
-            Self(1)
-        } else {
-            Self(i as i32)
-        }
+        Self(i as i32)
     }
 
     pub fn uninit() -> Self {
